@@ -286,7 +286,7 @@ impl Rig {
 
 pub fn bounds(tier: Tier) -> Value {
     match tier {
-        Tier::Quick => json!({"lines": 3, "deviations": 2, "horizon": 6, "answers_per_choice": 16}),
+        Tier::Quick => json!({"lines": 3, "deviations": 2, "horizon": 8, "answers_per_choice": 16}),
         Tier::Thorough => json!({"lines": 4, "deviations": 3, "horizon": 8, "answers_per_choice": 16}),
     }
 }
@@ -332,7 +332,7 @@ pub fn worker(w: &mut Worker) {
     let tier = w.tier;
     let forms = line_forms();
     let nmax = tier.pick(3usize, 4usize);
-    let (devs, horizon) = tier.pick((2usize, 6usize), (3usize, 8usize));
+    let (devs, horizon) = tier.pick((2usize, 8usize), (3usize, 8usize));
     let idx: Vec<usize> = (0..forms.len()).collect();
     let configs = [OnError::Absent, OnError::Continue, OnError::Exit, OnError::Crash];
     let rigs: Vec<Rig> = configs.iter().map(|c| Rig::new(*c)).collect();
